@@ -523,7 +523,7 @@ class Exec:
         if r == z3.sat:
             # prefer a small counterexample (replayable): bound every registered input
             for lim in (64, 2048, 70000):
-                small = [z3.ULE(t, z3.BitVecVal(lim, t.size())) if not n.endswith(":signed") else z3.And(t >= -lim, t <= lim) for n, t in self.inputs.items()]
+                small = [z3.ULE(t, z3.BitVecVal(lim, t.size())) if not n.endswith(":signed") else z3.And(t >= -lim, t <= lim) for n, t in self.inputs.items() if t.size() > 16]
                 if self.check(*(st["pc"] + [z3.Not(cond)] + small)) == z3.sat:
                     break
             else:
@@ -533,6 +533,16 @@ class Exec:
             for n, t in self.inputs.items():
                 ev = m.eval(t, model_completion=True)
                 vals[n] = ev.as_signed_long() if n.endswith(":signed") else ev.as_long()
+            # a second, larger witness: an overflow that stays inside the enclosing heap object is
+            # invisible to sanitizers, one that runs past it is not
+            big = [z3.And(z3.UGE(t, z3.BitVecVal(3000, t.size())), z3.ULE(t, z3.BitVecVal(60000, t.size()))) for n, t in self.inputs.items() if n.endswith("_len")]
+            if big and self.check(*(st["pc"] + [z3.Not(cond)] + big)) == z3.sat:
+                m2 = self.solver.model()
+                alt = {}
+                for n, t in self.inputs.items():
+                    ev = m2.eval(t, model_completion=True)
+                    alt[n] = ev.as_signed_long() if n.endswith(":signed") else ev.as_long()
+                vals["_alt"] = alt
             self.violations.append({"kind": kind, "detail": detail, "inputs": vals, "func": st["fn"], "block": st["blk"]})
             # continue on the inputs for which the access is fine
             st["pc"].append(cond)
